@@ -47,6 +47,7 @@ func Run(c *hx.Ctx) {
 	// 3. generated input
 	probes = append(probes, genPrograms(c, w, c.N(260, 4000))...)
 	probes = append(probes, genNative(c, w, c.N(700, 12000))...)
+	probes = append(probes, genScenarios(c, w, c.N(80, 2000))...)
 	probes = append(probes, genEvm(c, w, c.N(60, 1200))...)
 	oracle(c, probes, fatalWitnesses(w), "run")
 	// 4. correspondence cases for the guard model
@@ -145,27 +146,8 @@ func crashClass(p Probe, how, detail string) string {
 	if how == "fatal" && strings.Contains(detail, "stack overflow") && strings.Contains(detail, "uildParamToNative") {
 		return "crash:cycle-non-first-element:Native.Invoke"
 	}
-	if how == "panic" && adminOnlySites[site] && p.signedByAdmin() {
-		return "crash:admin-only:" + site
-	}
 	if site == "" {
 		site = kindOf(p)
 	}
 	return "crash:" + how + ":" + site
-}
-
-// adminOnlySites: panics that only a transaction carrying the governance admin's witness can reach
-// (on the ledgerkit chain the bookkeeper, signer -1, is the admin). Listed as known findings with a
-// class of their own; the same panic from a probe the admin did not sign is still a VIOLATION.
-var adminOnlySites = map[string]bool{"governance.UpdateConfig": true}
-
-func (p Probe) signedByAdmin() bool {
-	for _, t := range p.Txs {
-		for _, s := range t.Signers {
-			if s == -1 {
-				return true
-			}
-		}
-	}
-	return false
 }
